@@ -5,7 +5,7 @@ wt=$1; patch=$2; shift 2
 git -C "$wt" checkout -q -- qbee qvm 2>/dev/null
 git -C "$wt" apply "$patch" || { echo "PATCH DOES NOT APPLY"; exit 3; }
 for c in "$@"; do
-  QV_REPO="$wt" ./check "$c" --tier quick > /tmp/beval_$c.out 2>&1
+  QV_REPO="$wt" QV_EVIDENCE_DIR=/tmp/seeded_eval_evidence ./check "$c" --tier quick > /tmp/beval_$c.out 2>&1
   rc=$?
   echo "BREAKER $(basename $patch) $c rc=$rc $(grep -c '^VIOLATION' /tmp/beval_$c.out) sigs: $(grep 'sig=' /tmp/beval_$c.out | sed 's/.*sig=\([^ ]*\).*/\1/' | head -4 | tr '\n' ' ')"
 done
